@@ -65,8 +65,8 @@ def run(ctx, model_ok):
                             "inside test / bounding-box pre-filter / is_facet_inwards, tied by the trimesh-inside stream)",
                             "degenerate inputs (zero-length edge, zero-area triangle, det = 0, d = 0, observer on a vertex or on the carrier line) are inside the scale theorems but there both sides "
                             "are Lean's totalised values (x/0 = 0, log 0 = 0): no information",
-                            "proportionality to the excitation: Sphere here, other kernels in Props/C05 (kernel level; the wrappers' pol != 0 masks are not included); the sum over the segments "
-                            "of a vertices-form Polyline is not stated here",
+                            "proportionality to the excitation: Sphere here, everything else in Props/C05 — since c05wrap at WRAPPER level, the wrappers' `pol == 0` / transversal / axial masks included "
+                            "(cuboid_wrapper_linear … cylinder_wrapper_linear, polyline_wrapper_linear for the sum over the segments of one Polyline instance)",
                             "TriangularMesh field: Props/C06 trimesh_batch_scale_invariant; mesh VALIDATION: check_selfintersecting is NOT unit invariant (absolute eps, float32; Props/C16 witness and "
                             "known findings), check_open / check_disconnected are combinatorial; the full re-orientation is not stated here (only the seed test is_facet_inwards)",
                             "CylinderSegment: unit invariance of the whole ported BHJM_cylinder_segment(_internal) IS proved for outer radius != 0 (`cylseg_scale_invariant_partial`: the code divides all "
